@@ -31,7 +31,16 @@ type Case struct {
 	// operations start, so that these work around a chosen offset (the streams buffer 4096 bytes)
 	Pad  int `json:"pad,omitempty"`
 	Skip int `json:"skip,omitempty"`
+	// Stream "grow": a host reader that reports the end when it is drained and delivers again once the host has
+	// appended to it; Grow is appended before query number GrowAt
+	Grow   string `json:"grow,omitempty"`
+	GrowAt int    `json:"grow_at,omitempty"`
 }
+
+// growReader reads from a buffer the host may append to at any time.
+type growReader struct{ buf bytes.Buffer }
+
+func (g *growReader) Read(p []byte) (int, error) { return g.buf.Read(p) }
 
 func (c Case) String() string {
 	pad := ""
@@ -50,6 +59,7 @@ type model struct {
 	peekedEOF     bool // a peek delivered end_of_file since the last consuming read
 	eof           string
 	justDelivered bool // the most recent read/peek operation was the read that delivered end_of_file
+	grew          bool // input has arrived since the last read / peek: the stream cannot know yet
 }
 
 const (
@@ -162,6 +172,9 @@ func (m *model) readTerm() ([]string, bool) {
 
 // eos gives the acceptable values of the end_of_stream property.
 func (m *model) eos() []string {
+	if m.grew {
+		return []string{"not", "at", "past"}
+	}
 	switch {
 	case m.cur < len(m.src):
 		return []string{"not"}
@@ -225,6 +238,7 @@ type stats struct {
 
 func checkIn(c Case) (st stats, err error) {
 	src := strings.Repeat(" ", c.Pad) + c.Src
+	var grow *growReader
 	i := sut.New()
 	alias := "user_input"
 	eof := "reset"
@@ -254,6 +268,10 @@ func checkIn(c Case) (st stats, err error) {
 			Read([]byte) (int, error)
 		} = strings.NewReader(src)
 		switch c.Stream {
+		case "grow":
+			grow = &growReader{}
+			grow.buf.WriteString(src)
+			rd = grow
 		case "onebyte":
 			rd = iotest.OneByteReader(strings.NewReader(src))
 		case "dataerr":
@@ -282,6 +300,12 @@ func checkIn(c Case) (st stats, err error) {
 	seen := map[string]bool{}
 	prevPeek := false
 	for qi, ops := range c.Queries {
+		if grow != nil && c.Grow != "" && qi == c.GrowAt {
+			// the host appends input; the stream (eof_action reset for host streams) goes on with it
+			grow.buf.WriteString(c.Grow)
+			m.src = append(m.src, c.Grow...)
+			m.delivered, m.peekedEOF, m.justDelivered, m.grew = false, false, false, true
+		}
 		var goals []string
 		var expect [][]string
 		var vars []string
@@ -341,6 +365,10 @@ func checkIn(c Case) (st stats, err error) {
 				}
 				goal, want = fmt.Sprintf("read_term(%s, %s, [])", alias, v), w
 			case "pos":
+				if grow != nil { // (what the position counts after a reset is not part of the property)
+					st.skipped++
+					continue
+				}
 				goal = fmt.Sprintf("%s, stream_property(S%d, position(%s))", streamGoal(alias, fmt.Sprintf("S%d", oi)), oi, v)
 				want = []string{fmt.Sprintf("i:%d", m.cur)}
 			case "eos":
@@ -364,6 +392,9 @@ func checkIn(c Case) (st stats, err error) {
 				return st, fmt.Errorf("infrastructure: op %q", op)
 			}
 			seen[op] = true
+			if op == "get" || op == "peek" || op == "read" || op == "getx" {
+				m.grew = false
+			}
 			if prevPeek && op != "peek" {
 				st.peekThenRead = true
 			}
@@ -578,7 +609,7 @@ func genCase() *rapid.Generator[Case] {
 			c.Pad = []int{4096, 8192, 4095, 4097}[u(t, 4, "pad")] - u(t, 4, "short")
 			c.Skip = c.Pad - u(t, 6, "back")
 		}
-		c.Stream = []string{"file", "file", "strings", "onebyte", "dataerr", "half"}[u(t, 6, "stream")]
+		c.Stream = []string{"file", "file", "strings", "onebyte", "dataerr", "half", "grow"}[u(t, 7, "stream")]
 		c.Binary = u(t, 4, "bin") == 0
 		c.Eof = []string{"error", "eof_code", "reset"}[u(t, 3, "eof")]
 		pool := textOps
@@ -592,6 +623,13 @@ func genCase() *rapid.Generator[Case] {
 			}
 			c.Queries = append(c.Queries, ops)
 		}
+		if c.Stream == "grow" {
+			c.Pad, c.Skip = 0, 0
+			c.Grow = genSrc(t)
+			c.GrowAt = 1 + u(t, len(c.Queries), "growat")
+			// enough reading before the new input arrives to reach the end of the first part now and then
+			c.Queries = append([][]string{{"get", "get", "get", "get"}}, c.Queries...)
+		}
 		return c
 	})
 }
@@ -599,7 +637,7 @@ func genCase() *rapid.Generator[Case] {
 func TestProp(t *testing.T) {
 	r := h.Start(t, "C19")
 	defer r.Finish(t)
-	r.Rule("rapid-generated cases. Input: a source assembled from segments (a lower-case atom or integer, an end '.', layout / comments, and arbitrary characters incl. multi-byte, with and without trailing layout after the last term, so the model knows where every term ends without a second parser) x a stream kind (a file opened with open/4 as text or binary with each eof_action; host readers given to SetUserInput: strings.Reader, one-byte reader, a reader returning its last data together with EOF, a half reader; text or binary) (one case in twelve: behind about 4096 or 8192 spaces, all but a few of which a get loop consumes first, so that the operations straddle a buffer boundary) x 1-5 queries of 1-4 operations each from {get_char/get_byte (also with the character / byte given: it is consumed whether it matches or not), peek_char/peek_byte, read_term, at_end_of_stream, stream_property position, stream_property end_of_stream} - operations are issued both in separate queries and as conjunctions inside one query. Oracle: a cursor model (bytes, cursor, end_of_file delivered): peeks return what the next read returns and move nothing; consecutive reads deliver consecutive characters, bytes or terms; read_term leaves the cursor right after the end '.'; at the end end_of_file / -1 is delivered once and then eof_action applies (a peek that showed end_of_file changes nothing: the next consuming read still delivers it); position = bytes consumed; end_of_stream is 'not' while input remains and 'past' once end_of_file was delivered by a read. A read_term whose text at the cursor is outside the modelled syntax is not issued. Output: put_char, nl, write, write_term, put_byte sequences on a file or a host writer (text and binary): after close / flush_output the sink holds exactly the concatenation in program order. Non-trivial: a sequence mixing >= 2 operation kinds with a peek followed by another kind, or reaching the end of the source. Distinct by case.",
+	r.Rule("rapid-generated cases. Input: a source assembled from segments (a lower-case atom or integer, an end '.', layout / comments, and arbitrary characters incl. multi-byte, with and without trailing layout after the last term, so the model knows where every term ends without a second parser) x a stream kind (a file opened with open/4 as text or binary with each eof_action; host readers given to SetUserInput: strings.Reader, one-byte reader, a reader returning its last data together with EOF, a half reader, a reader the host appends to after it was drained (eof_action reset goes on with the new input); text or binary) (one case in twelve: behind about 4096 or 8192 spaces, all but a few of which a get loop consumes first, so that the operations straddle a buffer boundary) x 1-5 queries of 1-4 operations each from {get_char/get_byte (also with the character / byte given: it is consumed whether it matches or not), peek_char/peek_byte, read_term, at_end_of_stream, stream_property position, stream_property end_of_stream} - operations are issued both in separate queries and as conjunctions inside one query. Oracle: a cursor model (bytes, cursor, end_of_file delivered): peeks return what the next read returns and move nothing; consecutive reads deliver consecutive characters, bytes or terms; read_term leaves the cursor right after the end '.'; at the end end_of_file / -1 is delivered once and then eof_action applies (a peek that showed end_of_file changes nothing: the next consuming read still delivers it); position = bytes consumed; end_of_stream is 'not' while input remains and 'past' once end_of_file was delivered by a read. A read_term whose text at the cursor is outside the modelled syntax is not issued. Output: put_char, nl, write, write_term, put_byte sequences on a file or a host writer (text and binary): after close / flush_output the sink holds exactly the concatenation in program order. Non-trivial: a sequence mixing >= 2 operation kinds with a peek followed by another kind, or reaching the end of the source. Distinct by case.",
 		"the cursor model in props/c19", "behaviour after a syntax error in read_term and the at/not distinction when the source is exhausted but has not said so are not asserted")
 	r.Regress(t)
 	if r.Failed() {
